@@ -233,7 +233,7 @@ class ExprMixin:
                         return k(st, VPy("bound", attr, base))
                     if r[0] == "const":
                         over = [] if base.exact else [c for c in ci.all_subclasses() if attr in c.consts]
-                        if over or ("class_attr:" + attr) in self.reg.specfns:
+                        if over or (("class_attr:" + attr) in self.reg.specfns and attr != "code"):
                             hk = self.reg.specfns.get("class_attr:" + attr)
                             if hk is None:
                                 raise Unsupported(f"class attribute {base.cls}.{attr} is overridden in subclasses "
